@@ -457,6 +457,7 @@ type PendRule struct {
 	Forbid   func(in ssa.Instruction) bool          // must not execute while pending (may be nil)
 	SkipEdge func(from, to *ssa.BasicBlock) bool    // edges exempted from the rule (may be nil)
 	ExitOK   func(ret ssa.Instruction) bool         // exits that need no discharge (may be nil)
+	PhiOK    func(phiBlock, pred, succ *ssa.BasicBlock) bool // path-sensitive feasibility through phi-testing blocks (may be nil)
 	AtExit   bool                                   // require discharge before every normal return
 	OnPanic  bool                                   // also require at Panic exits
 }
@@ -507,6 +508,18 @@ func RunPend(f *ssa.Function, r PendRule) []PathViolation {
 			st.pending[ins] = true
 		}
 	}
+	// For blocks whose branch tests a phi defined in the block, the out-state is
+	// kept per successor, joining only the predecessors from which that
+	// successor is feasible (one step of path sensitivity).
+	type edgeKey struct{ from, to *ssa.BasicBlock }
+	outEdge := map[edgeKey]pendState{}
+	hasEdge := map[*ssa.BasicBlock]bool{}
+	inFrom := func(p, b *ssa.BasicBlock) pendState {
+		if hasEdge[p] {
+			return outEdge[edgeKey{p, b}]
+		}
+		return out[p]
+	}
 	changed := true
 	for iter := 0; changed && iter < 1000; iter++ {
 		changed = false
@@ -517,20 +530,46 @@ func RunPend(f *ssa.Function, r PendRule) []PathViolation {
 					if r.SkipEdge != nil && r.SkipEdge(p, b) {
 						continue
 					}
-					st = st.join(out[p])
+					st = st.join(inFrom(p, b))
 				}
 				in[b] = st
 			}
 			st := in[b].copy()
-			if !st.reach {
-				continue
+			if st.reach {
+				for _, ins := range b.Instrs {
+					step(ins, &st, false)
+				}
+				if !st.eq(out[b]) {
+					out[b] = st
+					changed = true
+				}
 			}
-			for _, ins := range b.Instrs {
-				step(ins, &st, false)
-			}
-			if !st.eq(out[b]) {
-				out[b] = st
-				changed = true
+			if r.PhiOK != nil && isPhiTestBlock(b) && b != f.Blocks[0] {
+				hasEdge[b] = true
+				for _, sc := range b.Succs {
+					acc := pendState{}
+					for _, p := range b.Preds {
+						if r.SkipEdge != nil && r.SkipEdge(p, b) {
+							continue
+						}
+						if !r.PhiOK(b, p, sc) {
+							continue
+						}
+						ps := inFrom(p, b).copy()
+						if !ps.reach {
+							continue
+						}
+						for _, ins := range b.Instrs {
+							step(ins, &ps, false)
+						}
+						acc = acc.join(ps)
+					}
+					k := edgeKey{b, sc}
+					if !acc.eq(outEdge[k]) {
+						outEdge[k] = acc
+						changed = true
+					}
+				}
 			}
 		}
 	}
